@@ -1,4 +1,6 @@
 import Prism.Proofs.C09
+import Prism.Proofs.C09Alloc
+import Prism.Proofs.C09AllocPng
 import Prism.Proofs.C09Cost
 
 #print axioms Prism.C09_consumed_le
@@ -7,7 +9,16 @@ import Prism.Proofs.C09Cost
 #print axioms Prism.C09_jpeg_segment_bounded
 #print axioms Prism.C09_mluc_wrap_is_error
 #print axioms Prism.C09_zero_tag_profile_alloc
+#print axioms Prism.C09_webp_alloc_linear
+#print axioms Prism.C09_jpeg_alloc_linear
+#print axioms Prism.C09_icc_alloc_linear
+#print axioms Prism.C09_png_inflated
+#print axioms Prism.C09_png_alloc_linear
 #print axioms Prism.C09_png_steps
 #print axioms Prism.C09_webp_steps
 #print axioms Prism.C09_jpeg_steps
 #print axioms Prism.C09_icc_steps
+#print axioms Prism.C09_png_alloc
+#print axioms Prism.C09_jpeg_alloc
+#print axioms Prism.C09_webp_alloc
+#print axioms Prism.C09_icc_alloc
